@@ -6,12 +6,20 @@ import os, sys, json, re, subprocess
 V = os.path.dirname(os.path.dirname(os.path.abspath(__file__)))
 import os as _os
 SHIFT = int(_os.environ.get('SEED_MOTIVE_SHIFT', '0'))
-MOTIVES = [
+MOTIVES_A = [
  'a lint / modernisation clean-up (f-strings, `==` vs `is`, comprehension or `enumerate` rewrites, `dict.get` / `setdefault`, `sorted` vs `.sort`, integer vs true division, default arguments, removing an "unused" variable or a "redundant" copy, replacing a hand-written loop by a library call whose corner cases differ)',
  'a portability change (open() with or without encoding / newline arguments, os.linesep, text vs binary mode, locale-dependent functions, path handling, Windows consoles, Python-version differences in str / float / random behaviour)',
  'hardening of error handling (a try/except that swallows or re-routes an error, a new validation that rejects or silently drops legal input, a retry, a default value substituted for a failure)',
  'a small new feature or option whose default is supposed to keep the old behaviour but does not in some corner (a new CLI flag, a new config field, a new output format, an environment variable)',
 ]
+# second set (waves 13+): SEED_MOTIVE_SET=B
+MOTIVES_B = [
+ 'a performance optimisation (a cache or memo keyed too coarsely, an early exit, batching of writes, avoiding a copy so that two users now share one object, a generator in place of a list that is consumed twice, a pre-computed table, lazy loading)',
+ 'a refactoring (two similar blocks that differ in a detail merged into one helper, code moved between functions so that it now runs at another moment or another number of times, a helper changed for one caller that has a second caller, state moved from a local to an attribute or module global)',
+ 'a change to start-up, shutdown or interruption handling (signal handlers, atexit, flushing and closing of files, KeyboardInterrupt / BrokenPipe handling, thread start / join, what is saved when, temporary files)',
+ 'a data-format or bookkeeping change (how numbers are formatted or parsed, rounding, sort keys and tie-breaks, de-duplication, normalisation of strings, line ends, what counts as empty, off-by-one in a counter that is also used elsewhere)',
+]
+MOTIVES = MOTIVES_B if _os.environ.get('SEED_MOTIVE_SET', 'A') == 'B' else MOTIVES_A
 CLAUSE = {pid: 'the change should look like ' + MOTIVES[(i + SHIFT) % len(MOTIVES)] for i, pid in enumerate(['C%02d' % k for k in range(1, 21)])}
 def used():
     out = {}
